@@ -135,4 +135,21 @@ def run(ctx):
     arg_i = faffine(iarg, lambda x: strip_site(x) == ph_in)
     run.inst("C19.A3", "colatitude-out", arg_i is not None and arg_i[2] is not None and arg_i[0] == -1.0 and rel(arg_i[1], math.pi / 2) and arg_i[1] == a_ph[1],
              "inverse is applied to %s (must be pi/2 - phi with the same constant as the way in)" % fmt(iarg), w2)
+    # A4: one series formula on every path: result = phi + (correction that vanishes with the coefficients); no special-cased input ranges
+    if APPLY not in facts.fns:
+        run.missing("C19.A4", APPLY)
+    else:
+        from ..query import returns_under
+        fa = fn_terms(facts, APPLY)
+        rs = [inline_calls(facts, r) for r in returns_under(fa, {})]
+        def phi_plus(t):
+            while t[0] == "agg" and len(t[3]) == 1:
+                t = t[3][0]
+            if t[0] == "bin" and t[1] == "Add":
+                lhs = t[2]
+                return any(x == ("param", 2) for x in walk(lhs)) and any(x[0] == "index" or x[0] == "cindex" or x[0] == "deref" for x in walk(t[3]))
+            return False
+        run.inst("C19.A4", "single-series-formula", len(rs) == 1 and phi_plus(rs[0]),
+                 "apply_coefficients has %d result formula(s); %s" % (len(rs), "phi + series(coefficients)" if len(rs) == 1 and phi_plus(rs[0]) else "an input range is special-cased or the shape is not phi + correction"),
+                 where(fa.fn["span"]))
     run.floor("C19", "rule instances", len(run.instances), 11)
